@@ -69,23 +69,45 @@ _CALL_MSGS = ("Malformed call token", "Call token signature verification failed"
 # ---------------------------------------------------------------------------
 
 
+def _call_aad_real(auth, method):  # type: ignore[no-untyped-def]
+    return st._compute_call_aad(auth, method) if tc._takes(st._compute_call_aad, "method_name") else st._compute_call_aad(auth)
+
+
 def _replay_aad(cex: dict) -> dict:
     x, y = tc.auth_from_json(cex["x"]), tc.auth_from_json(cex["y"])
+    xm, ym = cex.get("xm"), cex.get("ym")
     q = cex["q"]
+    none = {"verdict": "INCONCLUSIVE", "detail": "solver witness did not reproduce on the real functions"}
     if q == "kind":
-        a, b = st._compute_aad(x), st._compute_call_aad(y)
+        a, b = st._compute_aad(x), _call_aad_real(y, ym)
         if a == b:
-            return {"verdict": "VIOLATION", "replayed": True, "signature": "C12:aad:cursor-equals-call", "detail": f"_compute_aad({x!r}) == _compute_call_aad({y!r}) == {a!r}"}
-        return {"verdict": "INCONCLUSIVE", "detail": "solver witness did not reproduce on the real functions"}
-    fn = st._compute_aad if q == "inj:_compute_aad" else st._compute_call_aad
-    if fn(x) == fn(y) and tc.real_identity(x) != tc.real_identity(y):
+            return {"verdict": "VIOLATION", "replayed": True, "signature": "C12:aad:cursor-equals-call", "detail": f"_compute_aad({x!r}) == _compute_call_aad({y!r}, {ym!r}) == {a!r}"}
+        return none
+    if q == "inj:_compute_aad":
+        a, b, same = st._compute_aad(x), st._compute_aad(y), tc.real_identity(x) == tc.real_identity(y)
+    else:
+        a, b = _call_aad_real(x, xm), _call_aad_real(y, ym)
+        same = tc.real_identity(x) == tc.real_identity(y) and (xm == ym or not tc._takes(st._compute_call_aad, "method_name"))
+    if a == b and not same:
         return {
             "verdict": "VIOLATION",
             "replayed": True,
             "signature": "C12:aad:not-injective",
-            "detail": f"{fn.__name__} maps distinct identities {tc.real_identity(x)!r} and {tc.real_identity(y)!r} to the same AAD {fn(x)!r}",
+            "detail": f"{q[4:]} maps distinct (identity, method) {tc.real_identity(x)!r}/{xm!r} and {tc.real_identity(y)!r}/{ym!r} to the same AAD {a!r}",
         }
-    return {"verdict": "INCONCLUSIVE", "detail": "solver witness did not reproduce on the real functions"}
+    return none
+
+
+def _symstr_value(S, model, v):  # type: ignore[no-untyped-def]
+    g = (lambda t: model.eval(t, True)) if S.__name__ == "z3" else (lambda t: model[t])
+    if str(g(v.none)).lower() == "true":
+        return None
+    raw = g(v.s).as_string()
+    raw = tc._unescape(raw) if S.__name__ == "z3" else raw
+    try:
+        return raw.encode("latin-1").decode("utf-8")
+    except (UnicodeEncodeError, UnicodeDecodeError) as e:
+        raise tc.Unsupported(f"witness is not a UTF-8 image: {raw!r}") from e
 
 
 @task(q=40, t=120, encoded=[st._compute_aad, st._compute_call_aad], bound="all identities with NUL-free domain, unbounded lengths (cvc5); z3 cross-check lengths<=8", engine="smt")
@@ -95,8 +117,9 @@ def aad_injective_and_kind_separated(budget: float, replay=None) -> dict:
     if replay is not None:
         return _replay_aad(replay)
     res: dict = {"queries": 0, "discharged": 0, "solver_s": 0.0, "samples": []}
+    mp = "method_name" if tc._takes(st._compute_call_aad, "method_name") else None  # the call AAD may also bind the method
     try:
-        val = {f.__name__: tc.validate_identity_translation(f, bytes) for f in (st._compute_aad, st._compute_call_aad)}
+        val = {"_compute_aad": tc.validate_identity_translation(st._compute_aad, bytes), "_compute_call_aad": tc.validate_identity_translation(st._compute_call_aad, bytes, mp)}
     except tc.Unsupported as e:
         return {**res, "verdict": "INCONCLUSIVE", "detail": f"construct outside the translator: {e}"}
     res["translator_validation"] = val
@@ -105,12 +128,23 @@ def aad_injective_and_kind_separated(budget: float, replay=None) -> dict:
     verdicts: dict = {}
     for sname, S, bound in tc.solvers():
         x, y = tc.SymAuth(S, "x"), tc.SymAuth(S, "y")
-        queries = []
-        for fn in (st._compute_aad, st._compute_call_aad):
-            queries.append(("inj:" + fn.__name__, [tc.encode_fn(fn, S, x) == tc.encode_fn(fn, S, y), tc.nul_free_domain(S, x), tc.nul_free_domain(S, y), S.Not(tc.same_identity(S, x, y))]))
-        queries.append(("kind", [tc.encode_fn(st._compute_aad, S, x) == tc.encode_fn(st._compute_call_aad, S, y)]))
-        # the NUL restriction of the property is necessary (expected sat: shows the query can fail)
-        queries.append(("sanity:inj-without-nul-restriction", [tc.encode_fn(st._compute_aad, S, x) == tc.encode_fn(st._compute_aad, S, y), S.Not(tc.same_identity(S, x, y))]))
+        xm, ym = tc.SymStr(S, "xm"), tc.SymStr(S, "ym")
+        side: list = []
+
+        def call_aad(a, m):  # type: ignore[no-untyped-def]
+            return tc.encode_fn(st._compute_call_aad, S, a, {mp: m} if mp else None, side)
+
+        same_method = S.And(xm.none == ym.none, S.Or(xm.none, xm.s == ym.s)) if mp else S.BoolVal(True)
+        queries = [
+            ("inj:_compute_aad", [tc.encode_fn(st._compute_aad, S, x) == tc.encode_fn(st._compute_aad, S, y), tc.nul_free_domain(S, x), tc.nul_free_domain(S, y), S.Not(tc.same_identity(S, x, y))]),
+            ("inj:_compute_call_aad", [call_aad(x, xm) == call_aad(y, ym), tc.nul_free_domain(S, x), tc.nul_free_domain(S, y), S.Not(S.And(tc.same_identity(S, x, y), same_method))]),
+            ("kind", [tc.encode_fn(st._compute_aad, S, x) == call_aad(y, ym)]),
+            # the NUL restriction of the property is necessary (expected sat: shows the query can fail)
+            ("sanity:inj-without-nul-restriction", [tc.encode_fn(st._compute_aad, S, x) == tc.encode_fn(st._compute_aad, S, y), S.Not(tc.same_identity(S, x, y))]),
+        ]
+        queries = [(label, [*cs, *side]) for label, cs in queries]
+        if sname == "z3" and mp:
+            queries = [(label, [*cs, S.Length(xm.s) <= bound, S.Length(ym.s) <= bound]) for label, cs in queries]
         for label, cs in queries:
             s = S.Solver()
             if sname == "z3":
@@ -129,6 +163,8 @@ def aad_injective_and_kind_separated(budget: float, replay=None) -> dict:
                 try:
                     m = s.model()
                     sample["witness"] = {"x": tc.auth_to_json(tc.auth_from_model(S, m, x)), "y": tc.auth_to_json(tc.auth_from_model(S, m, y))}
+                    if mp:
+                        sample["witness"].update(xm=_symstr_value(S, m, xm), ym=_symstr_value(S, m, ym))
                 except tc.Unsupported as e:
                     sample["witness_error"] = str(e)
             res["samples"].append(sample)
@@ -145,8 +181,10 @@ def aad_injective_and_kind_separated(budget: float, replay=None) -> dict:
                 cex = {"q": label, **smp["witness"]}
                 out = _replay_aad(cex)
                 return {**res, **out, "cex": cex}
-        if rc != "unsat" or rz != "unsat":
+        if rc != "unsat" or rz not in ("unsat", "unknown"):
             return {**res, "verdict": "INCONCLUSIVE", "detail": f"{label}: cvc5={rc} z3={rz}"}
+        if rz == "unknown":
+            res.setdefault("notes", []).append(f"{label}: z3 cross-check returned unknown within its time limit; verdict rests on cvc5")
     if verdicts[("cvc5", "sanity:inj-without-nul-restriction")][0] != "sat":
         return {**res, "verdict": "INCONCLUSIVE", "detail": "sanity query (no NUL restriction) was not satisfiable: encoding suspect"}
     res["verdict"] = "CONFIRMED"
@@ -585,7 +623,7 @@ def _resolution_check(i1: int, r: int, warm: bool, tok_sel: int, call_present: b
     call_slot = _Lazy(call_sel, call_opts) if call_present else None
     del tc.LOG[:]
     tc.HOLD["now"] = 100 + dt
-    aad_r, caad_r = st._compute_aad(auth), st._compute_call_aad(auth)
+    aad_r, caad_r = st._compute_aad(auth), tc.call_aad(auth, "m")
     err = None
     out = None
     try:
